@@ -23,9 +23,10 @@ def poly(i):
     return {"k": "polygon", "pts": [[i, 0], [i + 4, 0], [i + 4, 1], [i + 1, 1], [i + 1, 3], [i, 3]], "width": 0, "net": ""}
 
 
-def abs_lib(nl, with_path=False):
-    ports = [{"net": n, "shapes": [{"layer": l, "shapes": [rect(l + k), poly(10 * l + k)]} for l in range(1, nl + 1)]} for k, n in enumerate(["A", "B", "clk"])]
-    blk = [{"layer": l, "shapes": [rect(100 + l)]} for l in range(1, nl + 1)]
+def abs_lib(nl, with_path=False, layers=None):
+    layers = layers or list(range(1, nl + 1))
+    ports = [{"net": n, "shapes": [{"layer": l, "shapes": [rect(l + k), poly(10 * l + k)]} for l in layers]} for k, n in enumerate(["A", "B", "clk"])]
+    blk = [{"layer": l, "shapes": [rect(100 + l)]} for l in layers]
     cell = {"name": "abx", "has_layout": False, "insts": [], "elems": [], "annots": [],
             "abs": [{"outline": [[0, 0], [50, 0], [50, 40], [0, 40]], "ports": ports, "blockages": blk}]}
     return {"name": "detlib", "units": "Nano", "cells": [cell]}
@@ -63,6 +64,11 @@ def run(chk):
     for nl in (2, 3, 4):
         lib = abs_lib(nl)
         inputs += [("raw2proto", f"abs{nl}", lib), ("raw2gds", f"abs{nl}", lib), ("raw2lef", f"abs{nl}", lib)]
+    # layers that share one GDSII number (ids 101..103 = li / mcon / licon, all number 68): a sort key must still be total
+    same = abs_lib(3, layers=[101, 102, 103]); same["name"] = "samenum"
+    mixed = abs_lib(4, layers=[2, 103, 101, 1]); mixed["name"] = "mixednum"
+    for nm, lib in (("samenum", same), ("mixednum", mixed)):
+        inputs += [("raw2gds", nm, lib), ("raw2proto", nm, lib), ("raw2lef", nm, lib)]
     gs = [c for c in gen("raw", "MC_GdsSemantics", "Emit") if not c["must_err"]]
     fan = [c for c in gs if any(st["name"] == "fan_top" for st in c["lib"])]
     chk.require(len(fan) >= 3, "fan-out GDS inputs missing")
